@@ -71,6 +71,9 @@ def path_padding_param(scalar_input: bool, lenop: int, lenip: int, start: int):
         else:
             start = lenop
 
+    # NumPy integer types would overflow/wrap (int8) or break np.pad (unsigned) below
+    start = int(start)
+
     # numpy convention with negative start indices
     if start < 0:
         start = lenop + start
